@@ -210,8 +210,8 @@ func (c17) Gen(rng *rand.Rand, tier string, emit0 func(string)) {
 			kseqLast = append(kseqLast, l)
 		} else if f := strings.Fields(l); len(f) == 6 && f[0] == "cmd" {
 			c17BgStart(strings.Join(f, " "), func() c17GlueRes {
-				res, fails := c17Cmd(f)
-				return c17GlueRes{res: res, fails: fails}
+				res, fails, line := c17CmdX(f)
+				return c17GlueRes{res: res, fails: fails, line: line}
 			})
 			cmdLast = append(cmdLast, l)
 		} else {
@@ -545,11 +545,19 @@ func (c17) Exec(c string) (string, []Fail) {
 		return res, fails
 	case f[0] == "file" && (len(f) == 6 || (len(f) == 7 && strings.HasPrefix(f[6], "ms="))):
 		return c17File(f)
-	case f[0] == "cmd" && len(f) == 6:
+	case f[0] == "cmd" && (len(f) == 6 || (len(f) == 7 && f[6] == "zfin=clean")):
+		f = f[:6]
 		if r, ok := c17BgTake(strings.Join(f, " ")); ok {
+			if r.line != "" {
+				caseOverride = r.line
+			}
 			return r.res, r.fails
 		}
-		return c17Cmd(f)
+		res, fails, line := c17CmdX(f)
+		if line != "" {
+			caseOverride = line
+		}
+		return res, fails
 	case f[0] == "kseq" && (len(f) == 4 || len(f) == 6):
 		return c17Kseq(f)
 	case f[0] == "glue":
@@ -816,20 +824,46 @@ func c17File(f []string) (string, []Fail) {
 }
 
 func c17Cmd(f []string) (string, []Fail) {
+	res, fails, _ := c17CmdX(f)
+	return res, fails
+}
+
+// c17CmdX also returns the case line augmented with ` zfin=clean` when the input goes through zlib (gzip on the standard
+// input) and zlib itself, scanned independently with the access pattern of kseq.h, delivers the damaged file with a CLEAN
+// end: the model needs that verdict of the external library as data (finding D22w, same family as D22z)
+func c17CmdX(f []string) (string, []Fail, string) {
+	res, fails, zclean := c17CmdRun(f)
+	if zclean {
+		return res, fails, strings.Join(f[:6], " ") + " zfin=clean"
+	}
+	return res, fails, ""
+}
+
+func c17CmdRun(f []string) (string, []Fail, bool) {
 	// cmd obiconvert file|stdin <codec> nrec=N cut=K
 	sp, _, _, z, label, ok := c17DamageX([]string{"file", f[3], f[4], f[5]})
 	if !ok || f[1] != "obiconvert" {
-		return "bad-op", nil
+		return "bad-op", nil, false
 	}
 	codec := sp.codec
 	bin, err := repoCommandC17("obiconvert")
 	if err != nil {
-		return "bad-op", []Fail{{Sig: "cmd.build", Text: err.Error()}}
+		return "bad-op", []Fail{{Sig: "cmd.build", Text: err.Error()}}, false
 	}
 	dir, _ := os.MkdirTemp("", "c17")
 	defer os.RemoveAll(dir)
 	path := filepath.Join(dir, "t."+sp.format+"."+codec)
 	os.WriteFile(path, z, 0o644)
+	zclean := false
+	if codec == "gz" && (f[2] == "stdin" || f[2] == "pipe") && f[5] != "none" && sp.layout == "" {
+		if _, fin, ok := c17GzScan(path); ok && fin == "clean" {
+			zclean = true
+			stat("cmd:zlib-reports-clean-end-of-a-damaged-file")
+		}
+	}
+	if keep := os.Getenv("VERIF_C17_KEEP"); keep != "" { // debugging aid: keep the damaged file of a cmd case
+		os.WriteFile(filepath.Join(keep, filepath.Base(path)), z, 0o644)
+	}
 	var cmd *exec.Cmd
 	if f[2] == "ecopcr" {
 		// obiconvert --ecopcr <file>: ReadEcoPCRFromFile
@@ -844,7 +878,7 @@ func c17Cmd(f []string) (string, []Fail) {
 		cmd = exec.Command(bin)
 		cmd.Stdin = &faultReader{data: z, piece: 1 + len(z)%97, final: io.EOF}
 	} else if f[2] != "file" {
-		return "bad-op", nil
+		return "bad-op", nil, false
 	} else {
 		cmd = exec.Command(bin, path)
 	}
@@ -871,9 +905,13 @@ func c17Cmd(f []string) (string, []Fail) {
 			fails = append(fails, Fail{Sig: "cmd." + f[2] + "." + codec + ".complete-file", Text: "obiconvert on a complete " + codec + " input ended with " + res})
 		}
 	} else if res != "exit-nonzero" {
-		fails = append(fails, Fail{Sig: "cmd." + f[2] + "." + codec, Text: "obiconvert on a truncated " + codec + " input (" + label + ") ended with " + res})
+		sig := "cmd." + f[2] + "." + codec
+		if zclean && res == "exit0" {
+			sig += ".zlib-reports-clean"
+		}
+		fails = append(fails, Fail{Sig: sig, Text: "obiconvert on a truncated " + codec + " input (" + label + ") ended with " + res})
 	}
-	return res, fails
+	return res, fails, zclean
 }
 
 var (
